@@ -9,6 +9,7 @@ from mirsym.models_serde import de_err, rec_event
 from mirsym.values import Agg, Enum, Ptr, Seq, BStr, UNIT, Panic, Unwind, bv, bstr, bstr_py, bstr_eq, is_abnormal
 from mirsym.harness import Decider, finish_engine, replay, find_fns
 from mirsym.parse import Unsupported
+from mirsym.types import ty_str
 from checks import gentypes
 from vlib.common import Inconclusive
 
@@ -80,6 +81,20 @@ def union_models(doc):
         for s2, good in fork_bool(it, st, doc.pok[pos]):
             yield s2, (it.ok(Agg('Payload', (vname, pos))) if good else it.err(de_err('payload', vname)))
 
+    def T_next_value_seed(it, ctx, args, st):
+        """MapAccess::next_value_seed(seed): the value of the entry whose key was just read; for the `type` entry a string event handed to
+        the seed's own DeserializeSeed impl (executed from MIR); payload entries stay abstract and have no seeded form"""
+        cell = cell_of(st, args[0])
+        pos = st.deref(cell)
+        S = ctx.gargs[0]
+        is_type = [i for i in range(len(KEYS)) if it.feasible(st, doc.ksel[pos] == i)] == [0]
+        if not is_type:
+            raise Unsupported(f'next_value_seed::<{ty_str(S)}> on a payload entry (payloads are abstract tokens)')
+        st.write(cell, pos + 1)
+        for s2, ti in it.fork_on(st, [doc.tsel[pos] == i for i in range(len(TVALS))]):
+            de = Agg('StrEventDe', (bstr(TVALS[ti]),))
+            yield from it.call_trait(ctx.fr, S, 'serde::de::DeserializeSeed', 'deserialize', [P('StrEventDe')], [args[1], de], s2)
+
     def T_strde_str(it, ctx, args, st):
         de, visitor = args
         V = ctx.gargs[0]
@@ -88,7 +103,7 @@ def union_models(doc):
     def M_into_deserializer(it, ctx, args, st):
         yield st, Agg('StrEventDe', (sval(st, args[0]),))
 
-    tm = {('EvMap', 'MapAccess', 'next_key'): T_next_key, ('EvMap', 'MapAccess', 'next_value'): T_next_value,
+    tm = {('EvMap', 'MapAccess', 'next_key'): T_next_key, ('EvMap', 'MapAccess', 'next_value'): T_next_value, ('EvMap', 'MapAccess', 'next_value_seed'): T_next_value_seed,
           ('StrEventDe', 'Deserializer', 'deserialize_str'): T_strde_str, ('StrEventDe', 'Deserializer', 'deserialize_string'): T_strde_str,
           ('StrEventDe', 'Deserializer', 'deserialize_any'): T_strde_str, ('StrEventDe', 'Deserializer', 'deserialize_identifier'): T_strde_str}
     for k_ in list(tm):
@@ -221,10 +236,13 @@ def py_union_spec(members, exhaustive):
 
 def run(rep, tier):
     prog = gentypes.types_program()
-    run_union(rep, prog, 'C02')
-    run_union_serialize(rep, prog)
+    with rep.part('union deserialize'):
+        run_union(rep, prog, 'C02')
+    with rep.part('union serialize'):
+        run_union_serialize(rep, prog)
     from checks import c02obj
-    c02obj.run(rep, prog)
+    with rep.part('generated object'):
+        c02obj.run(rep, prog)
     ops = [{'op': 'gen_union', 'doc': '{"obj":{"foo":1},"type":"obj"}'}, {'op': 'gen_union', 'doc': '{"type":"zzz","zzz":[1]}'},
            {'op': 'gen_union', 'doc': '{"zzz":1,"type":"yyy"}'}, {'op': 'gen_object', 'doc': '{"req":1,"s":"x","sl":5,"e":"ONE"}'},
            {'op': 'gen_object', 'doc': '{"req":1,"s":"x","sl":9007199254740992,"e":"ONE"}'}, {'op': 'gen_object', 'doc': '{"req":null,"s":"x","sl":5,"e":"ONE"}'}]
